@@ -216,7 +216,7 @@ impl<S: BaseFloat> Rotation for Basis2<S> {
 
     #[inline]
     fn between_vectors(a: Vector2<S>, b: Vector2<S>) -> Basis2<S> {
-        Rotation2::from_angle(Rad::acos(a.dot(b)))
+        Rotation2::from_angle(a.angle(b))
     }
 
     #[inline]
